@@ -1410,6 +1410,9 @@ func (p *Printer) command(cmd Command, redirs []*Redirect) (startRedirs int) {
 			p.decLevel()
 		}
 		p.semiRsrv("esac", cmd.Esac)
+		// The ;; of the last item only stands in for the ; before esac,
+		// not for the one before a statement which follows on the same line.
+		p.wroteSemi = false
 	case *ArithmCmd:
 		p.w.WriteString("((")
 		if cmd.Unsigned {
